@@ -12,6 +12,7 @@
 -/
 import DuckModel.Wire
 import DuckModel.Spec.Tree
+import DuckModel.Spec.StrictEnd
 import DuckModel.Spec.Render
 import DuckModel.Sdk.FlowHalt
 
@@ -139,7 +140,16 @@ def handle (toks : List String) : Option String :=
         | .returning _ t => encOutcomeVars t.vars t.sdk
         | .failed => "fail"
         | .outOfFuel => "fuel"
-      some ("T" ++ encStr text ++ " M:" ++ model.replace " " "_" ++ " S:" ++ spec.replace " " "_")
+      -- C05: the literal reading of "ends without a value => output variable undefined"
+      -- (Spec/StrictEnd.lean); printed only where it differs from the tree interpretation
+      let spec2 :=
+        if op != "c04" then spec else
+        match runTree fuel b.strictEnds vars with
+        | .normal t => encOutcomeVars t.vars t.sdk
+        | .returning _ t => encOutcomeVars t.vars t.sdk
+        | _ => spec
+      let s2 := if spec2 == spec || spec == "fail" || spec == "fuel" then "" else " S2:" ++ spec2.replace " " "_"
+      some ("T" ++ encStr text ++ " M:" ++ model.replace " " "_" ++ " S:" ++ spec.replace " " "_" ++ s2)
     | _, _, _ => some "BAD-REQUEST"
   | _ => none
 
